@@ -379,6 +379,7 @@ def h_shift(I, self, dur):
         q = qv(I, dur)
         if q.unit.dim != I.units.literal("hour").dim: raise SymRaise("DimensionalityError", "shift duration")
         k = floor_i(q.phys / 3600)
+        dur.value = Qty(q.phys, I.units.literal("hour"))      # side effect of the real code: the duration is converted to hours IN PLACE (same physical value)
     else:
         raise Unsupported("shift duration kind")
     return new_expl(I, "ehq", DF(L.vshift(d.vec, k), d.unit), None, left=self, right=dur, operator="shifted by")
